@@ -47,8 +47,22 @@ pub struct ReplayFile {
 #[derive(Clone, Debug, Deserialize)]
 pub struct KnownFinding {
     pub property: String,
+    /// exact signature of the failing scenario, or empty when `signature_all_of` is used
+    #[serde(default)]
     pub signature: String,
+    /// alternative identification by call site: every fragment must occur in the signature
+    /// (used where the same failing call is reached with several neighbouring arguments)
+    #[serde(default)]
+    pub signature_all_of: Vec<String>,
     pub what: String,
+}
+
+impl KnownFinding {
+    pub fn matches(&self, property: &str, signature: &str) -> bool {
+        self.property == property
+            && ((!self.signature.is_empty() && self.signature == signature)
+                || (!self.signature_all_of.is_empty() && self.signature_all_of.iter().all(|f| !f.is_empty() && signature.contains(f.as_str()))))
+    }
 }
 
 #[derive(Clone, Debug, Deserialize, Default)]
@@ -237,7 +251,7 @@ pub fn execute(plan: CheckPlan) -> i32 {
     let mut known_hits: BTreeMap<String, usize> = BTreeMap::new();
     let mut lines = vec![];
     for v in &total.violations {
-        if let Some(k) = known.findings.iter().find(|k| k.property == v.property && k.signature == v.signature) {
+        if let Some(k) = known.findings.iter().find(|k| k.matches(&v.property, &v.signature)) {
             let e = known_hits.entry(format!("KNOWN-FINDING: property={} {}", k.property, k.what)).or_insert(0);
             *e += 1;
         } else {
